@@ -134,7 +134,7 @@ def run_behaviour(ctx, env, beh, name, base, on_step=None):
                 if obs_res in alts or (isinstance(obs_res, list) and sorted(obs_res) in [sorted(a) for a in alts if isinstance(a, list)]):
                     return n, None, True  # legal nondeterministic choice: the rest does not apply
             if obs_res != exp_res:
-                return n, {"kind": "result", "props": [replay.op_prop(op["name"])], "op": hist[-1],
+                return n, {"kind": "result", "props": sorted(replay.result_props(op, obs)), "op": hist[-1],
                            "expected": exp_res, "observed": obs, "history": hist,
                            "signature": "result:%s" % "/".join([op["name"]] + ([op["r"]] if "r" in op else []))}, False
             exp_state = universe.canon_state(rec["post"])
@@ -179,9 +179,10 @@ def stage_sim(ctx, name, *, num, depth, bases=(0,), consts=None, invariants=None
             raise MachineryFailure("simulate %s: %s" % (name, r.errors[0][:1500]))
         behs = list(behaviours(r, consts["EmitKeys"]))
         os.makedirs(core.CACHE, exist_ok=True)
-        with gzip.open(key + ".tmp", "wt") as fh:
+        tmp = "%s.%d.tmp" % (key, os.getpid())
+        with gzip.open(tmp, "wt") as fh:
             json.dump(behs, fh)
-        os.replace(key + ".tmp", key)
+        os.replace(tmp, key)
         cached = False
     if WARM:
         return None
@@ -236,7 +237,8 @@ def judge_recorded(ctx, name, consts, rec):
         v = {"kind": "lookup", "props": [METHOD_PROP.get(b["f"], "C05")],
              "op": {"name": b["f"], "x": b["x"], "q": b["q"]},
              "expected": {"must": b["must"], "may": b["may"]}, "observed": b["ans"],
-             "history": [], "state": r["st"], "base": r.get("base", "0"), "config": name,
+             "history": rec.hists[b["line"]] if b.get("line") is not None and b["line"] < len(rec.hists) else [],
+             "state": r["st"], "base": r.get("base", "0"), "config": name,
              "signature": "lookup:%s/%s" % (b["f"], "point" if b["q"][1] == b["q"][0] + 1 and b["q"][2] == 1 else "range")}
         _file(ctx, v)
     ctx.stages.append({"stage": "judge-lookups", "config": name, "states_recorded": rec.n_records,
